@@ -169,6 +169,8 @@ def gen_c01(r):
 
 def gen_c02(r):
     lens = rnd_lens(r, 8, 6)
+    if r.random() < 0.04:
+        lens = [r.randint(0, 6) for _ in range(r.randint(20, 40))]
     arr = rnd_arr(r, r.choice(["i8", "i8", "i4", "f8", "b1", "u1", "i2"]), lens, distinct=True)
     n = len(lens)
     if r.random() < 0.06:
